@@ -57,9 +57,9 @@ def run_readn(res, work, tier, seed):
                                          "prep": rng.choice([-1, 0, 1, count - 1, count])}, "ops": []})
     # counts at the arena's chunk-size boundaries, on fresh / nearly full / already-maximal arenas
     mib = 1 << 20
-    for count in (4095, 4096, 4097, mib - 1, mib, mib + 1):
-        for prep in (-1, -2, 0, 1):
-            for script in ([2 * mib], [5, 0], [-1, 100, -1, 2 * mib]):
+    for count in (4095, 4096, 4097, mib - 1, mib, mib + 1, 2 * mib + 3):
+        for prep in (-1, -2, -3, 0, 1):
+            for script in ([2 * mib], [5, 0], [-1, 100, -1, 2 * mib], [-2], [0], [-1] * 12, [-1, -1, -3]):
                 for entry in ("arena", "encode_read", "enc_read_n", "dec_read_n"):
                     if entry != "arena" and prep >= 0:
                         continue
